@@ -163,7 +163,9 @@ def nls_abstract(env):
             JM[key] = env.fresh_matrix(f'J{kind}{slot}', 2, x.shape[-1])
         return JM[key]
     st.set_external('autograd.functional.jacobian', jacobian)
+    clock0 = s.systime.clone()
     s.set_refpoint(xs, us, ts)
+    env.eq('NLS.set_refpoint(x*, u*, t*) chooses a linearisation point; it does not move the system clock', s.systime, clock0)
     A_, B_, C_, D_ = s.A, s.B, s.C, s.D
     def at_ref(call):
         kind, slot, st_, in_, t_ = call
